@@ -37,10 +37,10 @@ theorem nextChunkSize_spec (b : Bytes) (hb : b.length < 2 ^ 64) (s : St) (hs : S
     apply readsWithin_cons _ hr
     simp only [Gen.hdrReadOff, Gen.hdrReadLen]
     omega
-  have hlt : leNat (slice b (Gen.hdrReadOff s.ptr) Gen.hdrReadLen) % 2 ^ Gen.rdSizeBits < 2 ^ 32 := by
+  have hlt : numVal (slice b (Gen.hdrReadOff s.ptr) Gen.hdrReadLen) % 2 ^ Gen.rdSizeBits < 2 ^ 32 := by
     apply Nat.lt_of_lt_of_le (Nat.mod_lt _ (Nat.two_pow_pos _))
     simp [Gen.rdSizeBits]
-  generalize leNat (slice b (Gen.hdrReadOff s.ptr) Gen.hdrReadLen) % 2 ^ Gen.rdSizeBits = sz at hlt ⊢
+  generalize numVal (slice b (Gen.hdrReadOff s.ptr) Gen.hdrReadLen) % 2 ^ Gen.rdSizeBits = sz at hlt ⊢
   by_cases h3 : Gen.sizeBad s.ptr sz b.length = true
   · rw [if_pos h3]; exact ⟨hp, hread⟩
   rw [if_neg h3]
@@ -223,6 +223,35 @@ theorem leNat_leBytes (k n : Nat) : leNat (leBytes k n) = n % 256 ^ k := by
     rw [e, Nat.mod_mul]
     omega
 
+theorem numBytes_length (k n : Nat) : (numBytes k n).length = k := by
+  unfold numBytes; split <;> simp [leBytes_length]
+
+/-- decoding what was encoded: the value modulo 256^k, in either byte order -/
+theorem numVal_numBytes (k n : Nat) : numVal (numBytes k n) = n % 256 ^ k := by
+  unfold numVal numBytes
+  cases Gen.littleEndian <;> simp [leNat_leBytes]
+
+theorem leBytes_leNat : ∀ (b : Bytes), leBytes b.length (leNat b) = b := by
+  intro b
+  induction b with
+  | nil => rfl
+  | cons c rest ih =>
+    simp only [List.length_cons, leBytes, leNat]
+    have h1 : (c.toNat + 256 * leNat rest) % 256 = c.toNat := by have := c.toNat_lt; omega
+    have h2 : (c.toNat + 256 * leNat rest) / 256 = leNat rest := by have := c.toNat_lt; omega
+    rw [h1, h2, ih]
+    simp
+
+/-- encoding what was decoded: a `k`-byte object representation is determined by its value -/
+theorem numBytes_numVal (b : Bytes) : numBytes b.length (numVal b) = b := by
+  unfold numVal numBytes
+  cases Gen.littleEndian
+  · simp only [Bool.false_eq_true, if_false]
+    have := leBytes_leNat b.reverse
+    rw [List.length_reverse] at this
+    rw [this, List.reverse_reverse]
+  · simp only [if_true]; exact leBytes_leNat b
+
 theorem slice_length (b : Bytes) (off len : Nat) (h : off + len ≤ b.length) : (slice b off len).length = len := by
   simp [slice]; omega
 
@@ -249,7 +278,7 @@ theorem At_self (x : Bytes) : At x 0 x := by
   simp [At, slice]
 
 theorem chunk_length (data : Bytes) : (chunk data).length = 4 + data.length := by
-  simp [chunk, leBytes_length, Gen.wrHdrLen]
+  simp [chunk, numBytes_length, Gen.wrHdrLen]
 
 /-! ## reading back what `write_chunk` wrote -/
 
@@ -259,10 +288,10 @@ theorem nextChunkSize_at (b : Bytes) (hb : b.length < 2 ^ 64) (off : Nat) (r : L
   unfold chunk at hat
   rw [At_append] at hat
   obtain ⟨⟨hl1, hs1⟩, ⟨hl2, _⟩⟩ := hat
-  rw [leBytes_length] at hl1 hs1 hl2
+  rw [numBytes_length] at hl1 hs1 hl2
   simp only [Gen.wrHdrLen, Gen.wrSizeBits] at hl1 hs1 hl2
-  have hsz : leNat (slice b off 4) % 2 ^ 32 = data.length := by
-    rw [hs1, leNat_leBytes]
+  have hsz : numVal (slice b off 4) % 2 ^ 32 = data.length := by
+    rw [hs1, numVal_numBytes]
     have : (256 : Nat) ^ 4 = 2 ^ 32 := by decide
     rw [this, Nat.mod_mod, Nat.mod_mod, Nat.mod_eq_of_lt hd]
   unfold nextChunkSize
@@ -280,7 +309,7 @@ theorem readChunk_at (b : Bytes) (hb : b.length < 2 ^ 64) (off : Nat) (r : List 
     ∃ r', readChunk b data.length ⟨off, r⟩ = .ok data ⟨off + (chunk data).length, r'⟩ := by
   have hn := nextChunkSize_at b hb off r data hd hat
   unfold chunk at hat
-  rw [At_append, leBytes_length] at hat
+  rw [At_append, numBytes_length] at hat
   obtain ⟨⟨hl1, _⟩, ⟨hl2, hs2⟩⟩ := hat
   simp only [Gen.wrHdrLen] at hl1 hl2 hs2
   unfold readChunk
@@ -297,7 +326,7 @@ theorem readChunkAsString_at (b : Bytes) (hb : b.length < 2 ^ 64) (off : Nat) (r
     ∃ r', readChunkAsString b ⟨off, r⟩ = .ok data ⟨off + (chunk data).length, r'⟩ := by
   have hn := nextChunkSize_at b hb off r data hd hat
   unfold chunk at hat
-  rw [At_append, leBytes_length] at hat
+  rw [At_append, numBytes_length] at hat
   obtain ⟨⟨hl1, _⟩, ⟨hl2, hs2⟩⟩ := hat
   simp only [Gen.wrHdrLen] at hl1 hl2 hs2
   unfold readChunkAsString
@@ -310,11 +339,11 @@ theorem loadCount_at (b : Bytes) (hb : b.length < 2 ^ 64) (off : Nat) (r : List 
     (hn : n < 2 ^ 64) (hat : At b off (saveCount n)) :
     ∃ r', loadCount b ⟨off, r⟩ = .ok n ⟨off + (saveCount n).length, r'⟩ := by
   unfold saveCount at hat ⊢
-  have hl : (leBytes sizeofSizeT n).length = sizeofSizeT := leBytes_length _ _
-  obtain ⟨r', h⟩ := readChunk_at b hb off r (leBytes sizeofSizeT n) (by rw [hl]; decide) hat
+  have hl : (numBytes sizeofSizeT n).length = sizeofSizeT := numBytes_length _ _
+  obtain ⟨r', h⟩ := readChunk_at b hb off r (numBytes sizeofSizeT n) (by rw [hl]; decide) hat
   rw [hl] at h
   unfold loadCount
-  rw [h, Res.map_ok, leNat_leBytes]
+  rw [h, Res.map_ok, numVal_numBytes]
   have : (256 : Nat) ^ sizeofSizeT = 2 ^ 64 := by decide
   rw [this, Nat.mod_eq_of_lt hn]
   exact ⟨r', rfl⟩
@@ -337,19 +366,19 @@ theorem ltLex_asymm {α : Type} (lt : α → α → Bool) (h : ∀ a b, lt a b =
       · exact ⟨h a c hac, Or.inl hac⟩
       · exact ⟨hca, Or.inr (ih cs hrest)⟩
 
+theorem ltNum_asymm (a b : Bytes) (h : ltNum a b = true) : ltNum b a = false := by
+  simp only [ltNum, decide_eq_true_eq] at h; simp only [ltNum, decide_eq_false_iff_not]; omega
+
 variable [JsonCodec] in
 theorem lt_asymm : ∀ (ty : Ty) (a b : Val ty), lt ty a b = true → lt ty b a = false := by
   intro ty
   induction ty with
-  | pod n => intro a b h; simp only [lt, decide_eq_true_eq] at h; simp only [lt, decide_eq_false_iff_not]; omega
+  | pod n => intro a b h; exact ltNum_asymm a b h
   | str =>
     intro a b h
     exact ltLex_asymm ltByte (by intro x y hxy; simp only [ltByte, decide_eq_true_eq] at hxy
                                  simp only [ltByte, decide_eq_false_iff_not]; omega) a b h
-  | vecPod n =>
-    intro a b h
-    exact ltLex_asymm ltByte (by intro x y hxy; simp only [ltByte, decide_eq_true_eq] at hxy
-                                 simp only [ltByte, decide_eq_false_iff_not]; omega) a b h
+  | vecPod n => intro a b h; exact ltLex_asymm ltNum ltNum_asymm _ _ h
   | seq t ih => intro a b h; exact ltLex_asymm (lt t) ih a b h
   | set t ih => intro a b h; exact ltLex_asymm (lt t) ih a b h
   | map k v ihk ihv =>
@@ -647,7 +676,7 @@ theorem rt_ptr {α : Type} (b : Bytes) (hb : b.length < 2 ^ 64) (sv : α → Byt
     (h : ∀ x, v = some x → RT b sv ld x) :
     RT b (savePtr sv)
       (fun s => (readChunk b Gen.ptrFlagLen s).bind fun flag s1 =>
-        if leNat flag != 0 then .ok none s1 else (ld s1).map some) v := by
+        if numVal flag != 0 then .ok none s1 else (ld s1).map some) v := by
   intro off r hat
   cases v with
   | none =>
@@ -667,7 +696,7 @@ theorem rt_ptr {α : Type} (b : Bytes) (hb : b.length < 2 ^ 64) (sv : α → Byt
     simp only [List.length_cons, List.length_nil, Nat.zero_add] at h1
     simp only [Gen.ptrFlagLen]
     rw [h1, Res.bind_ok]
-    have : (leNat [0] != 0) = false := by decide
+    have : (numVal [0] != 0) = false := by decide
     rw [this, if_neg (by simp), h2, Res.map_ok, List.length_append, Nat.add_assoc]
 
 variable [JsonCodec] in
@@ -854,16 +883,18 @@ theorem ltByte_negTrans : NegTrans ltByte := by
   simp only [ltByte, decide_eq_false_iff_not] at h1 h2 ⊢
   omega
 
+theorem ltNum_negTrans : NegTrans ltNum := by
+  intro a b c h1 h2
+  simp only [ltNum, decide_eq_false_iff_not] at h1 h2 ⊢
+  omega
+
 variable [JsonCodec] in
 theorem lt_negTrans : ∀ (ty : Ty), NegTrans (lt ty) := by
   intro ty
   induction ty with
-  | pod n =>
-    intro a b c h1 h2
-    simp only [lt, decide_eq_false_iff_not] at h1 h2 ⊢
-    omega
+  | pod n => exact ltNum_negTrans
   | str => exact ltLex_negTrans ltByte ltByte_negTrans
-  | vecPod n => exact ltLex_negTrans ltByte ltByte_negTrans
+  | vecPod n => intro a b c h1 h2; exact ltLex_negTrans ltNum ltNum_negTrans _ _ _ h1 h2
   | seq t ih => exact ltLex_negTrans (lt t) ih
   | set t ih => exact ltLex_negTrans (lt t) ih
   | map k v ihk ihv => exact ltLex_negTrans _ (pairLt_negTrans (lt k) (lt v) ihk ihv)
@@ -1210,6 +1241,561 @@ theorem mem_mmapOfList {α β : Type} (lt : α → α → Bool) (l : List (α ×
   · cases h
   · exact h
 
+
+/-! ## which entries survive insertion and in which order
+
+`eqv lt a b`: neither is smaller (the containers' notion of "same key").  For `multimap`/`multiset` the entries of
+each key class keep the order in which they were loaded (stability) and nothing is lost (permutation); for
+`map`/`set` exactly the first loaded entry of each key class survives. -/
+
+def eqv {κ : Type} (lt : κ → κ → Bool) (a b : κ) : Bool := !lt a b && !lt b a
+
+section Order
+variable {κ : Type} (lt : κ → κ → Bool) (hasym : ∀ a b, lt a b = true → lt b a = false) (hnt : NegTrans lt)
+include hasym hnt
+
+theorem lt_of_eqv_lt {k x z : κ} (he : eqv lt k x = true) (hxz : lt x z = true) : lt k z = true := by
+  simp only [eqv, Bool.and_eq_true, Bool.not_eq_true'] at he
+  cases hkz : lt k z with
+  | true => rfl
+  | false => have := hnt x k z he.2 hkz; rw [hxz] at this; cases this
+
+theorem eqv_false_of_lt {k z : κ} (h : lt k z = true) : eqv lt k z = false := by
+  simp [eqv, h]
+
+theorem eqv_congr {k x y : κ} (hxy : eqv lt x y = true) : eqv lt k x = eqv lt k y := by
+  simp only [eqv, Bool.and_eq_true, Bool.not_eq_true'] at hxy
+  have fwd : ∀ a b : κ, lt a b = false → lt b a = false → eqv lt k a = true → eqv lt k b = true := by
+    intro a b hab hba h
+    simp only [eqv, Bool.and_eq_true, Bool.not_eq_true'] at h ⊢
+    exact ⟨hnt k a b h.1 hab, hnt b a k hba h.2⟩
+  cases h1 : eqv lt k x with
+  | true => exact (fwd x y hxy.1 hxy.2 h1).symm
+  | false =>
+    cases h2 : eqv lt k y with
+    | false => rfl
+    | true => have := fwd y x hxy.2 hxy.1 h2; rw [h1] at this; cases this
+
+end Order
+
+section Multi
+variable {α β : Type} (lt : α → α → Bool) (hasym : ∀ a b, lt a b = true → lt b a = false) (hnt : NegTrans lt)
+
+/-- `multimap::insert` loses nothing -/
+theorem mmapInsert_perm (x : α × β) : ∀ acc : List (α × β), (mmapInsert lt x acc).Perm (x :: acc) := by
+  intro acc
+  induction acc with
+  | nil => exact List.Perm.refl _
+  | cons y ys ih =>
+    simp only [mmapInsert]
+    split
+    · exact List.Perm.refl _
+    · exact (List.Perm.cons y ih).trans (List.Perm.swap x y ys)
+
+theorem mmapOfList_perm (l : List (α × β)) : (mmapOfList lt l).Perm l := by
+  unfold mmapOfList
+  have : ∀ (l acc : List (α × β)), (l.foldl (fun acc x => mmapInsert lt x acc) acc).Perm (acc ++ l) := by
+    intro l
+    induction l with
+    | nil => intro acc; simp
+    | cons x xs ih =>
+      intro acc
+      simp only [List.foldl_cons]
+      refine (ih _).trans ?_
+      refine (List.Perm.append_right xs (mmapInsert_perm lt x acc)).trans ?_
+      simpa using (List.perm_middle (a := x) (l₁ := acc) (l₂ := xs)).symm
+  simpa using this l []
+
+include hasym hnt in
+/-- inserting into a non-decreasing multimap puts the entry behind the entries of its own key class -/
+theorem mmapInsert_filter (k : α) (x : α × β) :
+    ∀ acc : List (α × β), pairwiseB (fun a b => !lt b.1 a.1) acc = true →
+      (mmapInsert lt x acc).filter (fun e => eqv lt k e.1) =
+        acc.filter (fun e => eqv lt k e.1) ++ (if eqv lt k x.1 then [x] else []) := by
+  intro acc
+  induction acc with
+  | nil => intro _; simp [mmapInsert, List.filter]; split <;> simp_all
+  | cons y ys ih =>
+    intro h
+    rw [pairwiseB_cons] at h
+    simp only [mmapInsert]
+    split
+    · rename_i hxy
+      cases hpx : eqv lt k x.1 with
+      | false => simp [List.filter, hpx]
+      | true =>
+        have hall : ∀ z ∈ y :: ys, eqv lt k z.1 = false := by
+          intro z hz
+          have hxz : lt x.1 z.1 = true := by
+            rcases List.mem_cons.mp hz with rfl | hz'
+            · exact hxy
+            · have hzy : lt z.1 y.1 = false := by simpa using h.1 z hz'
+              cases hxz : lt x.1 z.1 with
+              | true => rfl
+              | false => have := hnt x.1 z.1 y.1 hxz hzy; rw [hxy] at this; cases this
+          exact eqv_false_of_lt lt hasym hnt (lt_of_eqv_lt lt hasym hnt hpx hxz)
+        have hnil : (y :: ys).filter (fun e => eqv lt k e.1) = [] := by
+          rw [List.filter_eq_nil_iff]; intro z hz; simp [hall z hz]
+        rw [List.filter_cons, hpx, hnil]
+        simp
+    · rw [List.filter_cons, ih h.2, List.filter_cons]
+      split <;> simp
+
+include hasym hnt in
+/-- **Entries of one key keep their load order in a `multimap`** (and nothing else of that key appears). -/
+theorem mmapOfList_stable (k : α) (l : List (α × β)) :
+    (mmapOfList lt l).filter (fun e => eqv lt k e.1) = l.filter (fun e => eqv lt k e.1) := by
+  unfold mmapOfList
+  have : ∀ (l acc : List (α × β)), pairwiseB (fun a b => !lt b.1 a.1) acc = true →
+      (l.foldl (fun acc x => mmapInsert lt x acc) acc).filter (fun e => eqv lt k e.1) =
+        acc.filter (fun e => eqv lt k e.1) ++ l.filter (fun e => eqv lt k e.1) := by
+    intro l
+    induction l with
+    | nil => intro acc _; simp
+    | cons x xs ih =>
+      intro acc hacc
+      simp only [List.foldl_cons]
+      rw [ih _ (mmapInsert_sorted lt hasym hnt x acc hacc), mmapInsert_filter lt hasym hnt k x acc hacc, List.filter_cons]
+      split <;> simp
+  simpa using this l [] rfl
+
+end Multi
+
+section MultiSet
+variable {α : Type} (lt : α → α → Bool) (hasym : ∀ a b, lt a b = true → lt b a = false) (hnt : NegTrans lt)
+
+theorem msetInsert_perm (x : α) : ∀ acc : List α, (msetInsert lt x acc).Perm (x :: acc) := by
+  intro acc
+  induction acc with
+  | nil => exact List.Perm.refl _
+  | cons y ys ih =>
+    simp only [msetInsert]
+    split
+    · exact List.Perm.refl _
+    · exact (List.Perm.cons y ih).trans (List.Perm.swap x y ys)
+
+theorem msetOfList_perm (l : List α) : (msetOfList lt l).Perm l := by
+  unfold msetOfList
+  have : ∀ (l acc : List α), (l.foldl (fun acc x => msetInsert lt x acc) acc).Perm (acc ++ l) := by
+    intro l
+    induction l with
+    | nil => intro acc; simp
+    | cons x xs ih =>
+      intro acc
+      simp only [List.foldl_cons]
+      refine (ih _).trans ?_
+      refine (List.Perm.append_right xs (msetInsert_perm lt x acc)).trans ?_
+      simpa using (List.perm_middle (a := x) (l₁ := acc) (l₂ := xs)).symm
+  simpa using this l []
+
+include hasym hnt in
+theorem msetInsert_filter (k : α) (x : α) :
+    ∀ acc : List α, pairwiseB (fun a b => !lt b a) acc = true →
+      (msetInsert lt x acc).filter (fun e => eqv lt k e) =
+        acc.filter (fun e => eqv lt k e) ++ (if eqv lt k x then [x] else []) := by
+  intro acc
+  induction acc with
+  | nil => intro _; simp [msetInsert, List.filter]; split <;> simp_all
+  | cons y ys ih =>
+    intro h
+    rw [pairwiseB_cons] at h
+    simp only [msetInsert]
+    split
+    · rename_i hxy
+      cases hpx : eqv lt k x with
+      | false => simp [List.filter, hpx]
+      | true =>
+        have hall : ∀ z ∈ y :: ys, eqv lt k z = false := by
+          intro z hz
+          have hxz : lt x z = true := by
+            rcases List.mem_cons.mp hz with rfl | hz'
+            · exact hxy
+            · have hzy : lt z y = false := by simpa using h.1 z hz'
+              cases hxz : lt x z with
+              | true => rfl
+              | false => have := hnt x z y hxz hzy; rw [hxy] at this; cases this
+          exact eqv_false_of_lt lt hasym hnt (lt_of_eqv_lt lt hasym hnt hpx hxz)
+        have hnil : (y :: ys).filter (fun e => eqv lt k e) = [] := by
+          rw [List.filter_eq_nil_iff]; intro z hz; simp [hall z hz]
+        rw [List.filter_cons, hpx, hnil]
+        simp
+    · rw [List.filter_cons, ih h.2, List.filter_cons]
+      split <;> simp
+
+include hasym hnt in
+theorem msetOfList_stable (k : α) (l : List α) :
+    (msetOfList lt l).filter (fun e => eqv lt k e) = l.filter (fun e => eqv lt k e) := by
+  unfold msetOfList
+  have : ∀ (l acc : List α), pairwiseB (fun a b => !lt b a) acc = true →
+      (l.foldl (fun acc x => msetInsert lt x acc) acc).filter (fun e => eqv lt k e) =
+        acc.filter (fun e => eqv lt k e) ++ l.filter (fun e => eqv lt k e) := by
+    intro l
+    induction l with
+    | nil => intro acc _; simp
+    | cons x xs ih =>
+      intro acc hacc
+      simp only [List.foldl_cons]
+      rw [ih _ (msetInsert_sorted lt hasym hnt x acc hacc), msetInsert_filter lt hasym hnt k x acc hacc, List.filter_cons]
+      split <;> simp
+  simpa using this l [] rfl
+
+end MultiSet
+
+section Unique
+variable {α β : Type} (lt : α → α → Bool) (hasym : ∀ a b, lt a b = true → lt b a = false) (hnt : NegTrans lt)
+
+include hasym hnt in
+/-- `map::insert` into a strictly increasing map: the key class of `k` changes only if it was empty -/
+theorem mapInsert_filter (k : α) (x : α × β) :
+    ∀ acc : List (α × β), pairwiseB (fun a b => lt a.1 b.1) acc = true →
+      (mapInsert lt x acc).filter (fun e => eqv lt k e.1) =
+        if acc.filter (fun e => eqv lt k e.1) = [] then (if eqv lt k x.1 then [x] else [])
+        else acc.filter (fun e => eqv lt k e.1) := by
+  have htr := trans_of_asymm_negTrans lt hasym hnt
+  intro acc
+  induction acc with
+  | nil => intro _; simp [mapInsert, List.filter]; split <;> simp_all
+  | cons y ys ih =>
+    intro h
+    rw [pairwiseB_cons] at h
+    simp only [mapInsert]
+    split
+    · rename_i hxy
+      cases hpx : eqv lt k x.1 with
+      | false => simp [List.filter_cons, hpx]
+      | true =>
+        have hall : ∀ z ∈ y :: ys, eqv lt k z.1 = false := by
+          intro z hz
+          have hxz : lt x.1 z.1 = true := by
+            rcases List.mem_cons.mp hz with rfl | hz'
+            · exact hxy
+            · exact htr _ _ _ hxy (h.1 z hz')
+          exact eqv_false_of_lt lt hasym hnt (lt_of_eqv_lt lt hasym hnt hpx hxz)
+        have hnil : (y :: ys).filter (fun e => eqv lt k e.1) = [] := by
+          rw [List.filter_eq_nil_iff]; intro z hz; simp [hall z hz]
+        rw [List.filter_cons, hpx, hnil]
+        simp
+    · split
+      · rename_i hxy hyx
+        rw [List.filter_cons, ih h.2, List.filter_cons]
+        cases hpy : eqv lt k y.1 with
+        | false => simp
+        | true =>
+          have hpx : eqv lt k x.1 = false := eqv_false_of_lt lt hasym hnt (lt_of_eqv_lt lt hasym hnt hpy hyx)
+          simp [hpx]
+      · rename_i hxy hyx
+        have hxy' : lt x.1 y.1 = false := by simpa using hxy
+        have hyx' : lt y.1 x.1 = false := by simpa using hyx
+        have he : eqv lt x.1 y.1 = true := by simp [eqv, hxy', hyx']
+        have hc := eqv_congr lt hasym hnt (k := k) he
+        rw [List.filter_cons]
+        cases hpy : eqv lt k y.1 with
+        | true => simp
+        | false =>
+          rw [hpy] at hc
+          simp [hc]
+
+include hasym hnt in
+/-- **Of the entries of one key, a `std::map` keeps exactly the first one loaded** (`insert` does not overwrite). -/
+theorem mapOfList_first (k : α) (l : List (α × β)) :
+    (mapOfList lt l).filter (fun e => eqv lt k e.1) = (l.filter (fun e => eqv lt k e.1)).take 1 := by
+  have htr := trans_of_asymm_negTrans lt hasym hnt
+  unfold mapOfList
+  have : ∀ (l acc : List (α × β)), pairwiseB (fun a b => lt a.1 b.1) acc = true →
+      (l.foldl (fun acc x => mapInsert lt x acc) acc).filter (fun e => eqv lt k e.1) =
+        if acc.filter (fun e => eqv lt k e.1) = [] then (l.filter (fun e => eqv lt k e.1)).take 1
+        else acc.filter (fun e => eqv lt k e.1) := by
+    intro l
+    induction l with
+    | nil => intro acc _; simp
+    | cons x xs ih =>
+      intro acc hacc
+      simp only [List.foldl_cons]
+      rw [ih _ (mapInsert_sorted lt htr x acc hacc), mapInsert_filter lt hasym hnt k x acc hacc, List.filter_cons]
+      by_cases h1 : acc.filter (fun e => eqv lt k e.1) = []
+      · rw [if_pos h1, if_pos h1]
+        cases hpx : eqv lt k x.1 with
+        | true => simp
+        | false => simp
+      · rw [if_neg h1, if_neg h1, if_neg h1]
+  simpa using this l [] rfl
+
+end Unique
+
+section UniqueSet
+variable {α : Type} (lt : α → α → Bool) (hasym : ∀ a b, lt a b = true → lt b a = false) (hnt : NegTrans lt)
+
+include hasym hnt in
+/-- `set::insert` into a strictly increasing set: the key class of `k` changes only if it was empty -/
+theorem setInsert_filter (k : α) (x : α) :
+    ∀ acc : List α, pairwiseB (fun a b => lt a b) acc = true →
+      (setInsert lt x acc).filter (fun e => eqv lt k e) =
+        if acc.filter (fun e => eqv lt k e) = [] then (if eqv lt k x then [x] else [])
+        else acc.filter (fun e => eqv lt k e) := by
+  have htr := trans_of_asymm_negTrans lt hasym hnt
+  intro acc
+  induction acc with
+  | nil => intro _; simp [setInsert, List.filter]; split <;> simp_all
+  | cons y ys ih =>
+    intro h
+    rw [pairwiseB_cons] at h
+    simp only [setInsert]
+    split
+    · rename_i hxy
+      cases hpx : eqv lt k x with
+      | false => simp [List.filter_cons, hpx]
+      | true =>
+        have hall : ∀ z ∈ y :: ys, eqv lt k z = false := by
+          intro z hz
+          have hxz : lt x z = true := by
+            rcases List.mem_cons.mp hz with rfl | hz'
+            · exact hxy
+            · exact htr _ _ _ hxy (h.1 z hz')
+          exact eqv_false_of_lt lt hasym hnt (lt_of_eqv_lt lt hasym hnt hpx hxz)
+        have hnil : (y :: ys).filter (fun e => eqv lt k e) = [] := by
+          rw [List.filter_eq_nil_iff]; intro z hz; simp [hall z hz]
+        rw [List.filter_cons, hpx, hnil]
+        simp
+    · split
+      · rename_i hxy hyx
+        rw [List.filter_cons, ih h.2, List.filter_cons]
+        cases hpy : eqv lt k y with
+        | false => simp
+        | true =>
+          have hpx : eqv lt k x = false := eqv_false_of_lt lt hasym hnt (lt_of_eqv_lt lt hasym hnt hpy hyx)
+          simp [hpx]
+      · rename_i hxy hyx
+        have hxy' : lt x y = false := by simpa using hxy
+        have hyx' : lt y x = false := by simpa using hyx
+        have he : eqv lt x y = true := by simp [eqv, hxy', hyx']
+        have hc := eqv_congr lt hasym hnt (k := k) he
+        rw [List.filter_cons]
+        cases hpy : eqv lt k y with
+        | true => simp
+        | false =>
+          rw [hpy] at hc
+          simp [hc]
+
+include hasym hnt in
+/-- **Of the entries of one key, a `std::set` keeps exactly the first one loaded** (`insert` does not overwrite). -/
+theorem setOfList_first (k : α) (l : List α) :
+    (setOfList lt l).filter (fun e => eqv lt k e) = (l.filter (fun e => eqv lt k e)).take 1 := by
+  have htr := trans_of_asymm_negTrans lt hasym hnt
+  unfold setOfList
+  have : ∀ (l acc : List α), pairwiseB (fun a b => lt a b) acc = true →
+      (l.foldl (fun acc x => setInsert lt x acc) acc).filter (fun e => eqv lt k e) =
+        if acc.filter (fun e => eqv lt k e) = [] then (l.filter (fun e => eqv lt k e)).take 1
+        else acc.filter (fun e => eqv lt k e) := by
+    intro l
+    induction l with
+    | nil => intro acc _; simp
+    | cons x xs ih =>
+      intro acc hacc
+      simp only [List.foldl_cons]
+      rw [ih _ (setInsert_sorted lt htr x acc hacc), setInsert_filter lt hasym hnt k x acc hacc, List.filter_cons]
+      by_cases h1 : acc.filter (fun e => eqv lt k e) = []
+      · rw [if_pos h1, if_pos h1]
+        cases hpx : eqv lt k x with
+        | true => simp
+        | false => simp
+      · rw [if_neg h1, if_neg h1, if_neg h1]
+  simpa using this l [] rfl
+
+end UniqueSet
+
+/-! ## on well-formed values of key types `operator<` is total: incomparable values are equal -/
+
+theorem ltLex_tricho {α : Type} (lt : α → α → Bool) (P : α → Prop)
+    (helem : ∀ a b, P a → P b → lt a b = false → lt b a = false → a = b) :
+    ∀ x y : List α, (∀ a ∈ x, P a) → (∀ b ∈ y, P b) → ltLex lt x y = false → ltLex lt y x = false → x = y := by
+  intro x
+  induction x with
+  | nil =>
+    intro y _ _ h1 _
+    cases y with
+    | nil => rfl
+    | cons b bs => simp [ltLex] at h1
+  | cons a as ih =>
+    intro y hx hy h1 h2
+    cases y with
+    | nil => simp [ltLex] at h2
+    | cons b bs =>
+      simp only [ltLex, Bool.or_eq_false_iff, Bool.and_eq_false_iff, Bool.not_eq_false'] at h1 h2
+      have hab : a = b := helem a b (hx a List.mem_cons_self) (hy b List.mem_cons_self) h1.1 h2.1
+      subst hab
+      have r1 : ltLex lt as bs = false := by
+        rcases h1.2 with h | h
+        · rw [h2.1] at h; cases h
+        · exact h
+      have r2 : ltLex lt bs as = false := by
+        rcases h2.2 with h | h
+        · rw [h1.1] at h; cases h
+        · exact h
+      rw [ih bs (fun z hz => hx z (List.mem_cons_of_mem _ hz)) (fun z hz => hy z (List.mem_cons_of_mem _ hz)) r1 r2]
+
+theorem ltByte_tricho (a b : UInt8) (h1 : ltByte a b = false) (h2 : ltByte b a = false) : a = b := by
+  simp only [ltByte, decide_eq_false_iff_not] at h1 h2
+  exact UInt8.toNat_inj.mp (by omega)
+
+theorem bytes_tricho (a b : Bytes) (h1 : ltLex ltByte a b = false) (h2 : ltLex ltByte b a = false) : a = b :=
+  ltLex_tricho ltByte (fun _ => True) (fun a b _ _ => ltByte_tricho a b) a b (fun _ _ => trivial) (fun _ _ => trivial) h1 h2
+
+theorem pairLt_tricho {α β : Type} (la : α → α → Bool) (lb : β → β → Bool) (x y : α × β)
+    (ha : la x.1 y.1 = false → la y.1 x.1 = false → x.1 = y.1)
+    (hb : lb x.2 y.2 = false → lb y.2 x.2 = false → x.2 = y.2)
+    (h1 : (la x.1 y.1 || (!la y.1 x.1 && lb x.2 y.2)) = false)
+    (h2 : (la y.1 x.1 || (!la x.1 y.1 && lb y.2 x.2)) = false) : x = y := by
+  simp only [Bool.or_eq_false_iff, Bool.and_eq_false_iff, Bool.not_eq_false'] at h1 h2
+  have e1 := ha h1.1 h2.1
+  have r1 : lb x.2 y.2 = false := by
+    rcases h1.2 with h | h
+    · rw [h2.1] at h; cases h
+    · exact h
+  have r2 : lb y.2 x.2 = false := by
+    rcases h2.2 with h | h
+    · rw [h1.1] at h; cases h
+    · exact h
+  exact Prod.ext e1 (hb r1 r2)
+
+theorem ltNum_tricho (a b : Bytes) (hl : a.length = b.length) (h1 : ltNum a b = false) (h2 : ltNum b a = false) : a = b := by
+  simp only [ltNum, decide_eq_false_iff_not] at h1 h2
+  have e : numVal a = numVal b := by omega
+  have := numBytes_numVal a
+  rw [e, hl, numBytes_numVal b] at this
+  exact this.symm
+
+/-- the groups of a POD vector whose length is a multiple of `n` have `n` bytes each … -/
+theorem chunks_length (n : Nat) : ∀ (fuel : Nat) (b : Bytes), b.length ≤ fuel → b.length % n = 0 →
+    ∀ c ∈ chunks n fuel b, c.length = n := by
+  intro fuel
+  induction fuel with
+  | zero => intro b _ _ c hc; cases hc
+  | succ f ih =>
+    intro b hf hm c hc
+    simp only [chunks] at hc
+    split at hc
+    · cases hc
+    · rename_i hne
+      have hpos : 0 < b.length := by
+        cases b with
+        | nil => simp at hne
+        | cons x xs => simp
+      have hn : n ≤ b.length := by
+        cases n with
+        | zero => rw [Nat.mod_zero] at hm; omega
+        | succ m => exact Nat.le_of_dvd hpos (Nat.dvd_of_mod_eq_zero hm)
+      have hn0 : 0 < n := by
+        cases n with
+        | zero => rw [Nat.mod_zero] at hm; omega
+        | succ m => exact Nat.succ_pos _
+      rcases List.mem_cons.mp hc with rfl | hc'
+      · simp; omega
+      · refine ih (b.drop n) (by simp only [List.length_drop]; omega) ?_ c hc'
+        simp only [List.length_drop]
+        have h1 : (b.length - n) + n = b.length := by omega
+        have h2 : ((b.length - n) + n) % n = 0 := by rw [h1]; exact hm
+        rwa [Nat.add_mod_right] at h2
+
+/-- … and concatenated they are the vector -/
+theorem chunks_flatten (n : Nat) : ∀ (fuel : Nat) (b : Bytes), b.length ≤ fuel → b.length % n = 0 →
+    (chunks n fuel b).flatten = b := by
+  intro fuel
+  induction fuel with
+  | zero => intro b hf _; cases b with
+    | nil => rfl
+    | cons x xs => simp at hf
+  | succ f ih =>
+    intro b hf hm
+    simp only [chunks]
+    split
+    · rename_i he; cases b with
+      | nil => rfl
+      | cons x xs => simp at he
+    · rename_i hne
+      have hpos : 0 < b.length := by
+        cases b with
+        | nil => simp at hne
+        | cons x xs => simp
+      have hn : n ≤ b.length ∧ 0 < n := by
+        cases n with
+        | zero => rw [Nat.mod_zero] at hm; omega
+        | succ m => exact ⟨Nat.le_of_dvd hpos (Nat.dvd_of_mod_eq_zero hm), Nat.succ_pos _⟩
+      have hm' : (b.drop n).length % n = 0 := by
+        simp only [List.length_drop]
+        have h1 : (b.length - n) + n = b.length := by omega
+        have h2 : ((b.length - n) + n) % n = 0 := by rw [h1]; exact hm
+        rwa [Nat.add_mod_right] at h2
+      rw [List.flatten_cons, ih (b.drop n) (by simp only [List.length_drop]; omega) hm', List.take_append_drop]
+
+variable [JsonCodec] in
+theorem lt_tricho : ∀ (ty : Ty), keyable ty = true → ∀ (a b : Val ty), wf ty a = true → wf ty b = true →
+    lt ty a b = false → lt ty b a = false → a = b := by
+  intro ty
+  induction ty with
+  | pod n =>
+    intro _ (a : Bytes) (b : Bytes) ha hb h1 h2
+    simp only [wf, beq_iff_eq] at ha hb
+    exact ltNum_tricho a b (by rw [ha, hb]) h1 h2
+  | str => intro _ a b _ _ h1 h2; exact bytes_tricho a b h1 h2
+  | vecPod n =>
+    intro _ (a : Bytes) (b : Bytes) ha hb h1 h2
+    simp only [wf, beq_iff_eq] at ha hb
+    have e : podElems n a = podElems n b :=
+      ltLex_tricho ltNum (fun c => c.length = n)
+        (fun x y hx hy e1 e2 => ltNum_tricho x y (by rw [hx, hy]) e1 e2) _ _
+        (chunks_length n a.length a (Nat.le_refl _) ha) (chunks_length n b.length b (Nat.le_refl _) hb) h1 h2
+    rw [← chunks_flatten n a.length a (Nat.le_refl _) ha, ← chunks_flatten n b.length b (Nat.le_refl _) hb]
+    exact congrArg List.flatten e
+  | seq t ih =>
+    intro hk (a : List (Val t)) (b : List (Val t)) ha hb h1 h2
+    simp only [keyable] at hk
+    simp only [wf] at ha hb
+    exact ltLex_tricho (lt t) (fun x => wf t x = true) (fun x y hx hy => ih hk x y hx hy) a b
+      (List.all_eq_true.mp ha) (List.all_eq_true.mp hb) h1 h2
+  | set t ih =>
+    intro hk (a : List (Val t)) (b : List (Val t)) ha hb h1 h2
+    simp only [keyable] at hk
+    simp only [wf, Bool.and_eq_true] at ha hb
+    exact ltLex_tricho (lt t) (fun x => wf t x = true) (fun x y hx hy => ih hk x y hx hy) a b
+      (List.all_eq_true.mp ha.1) (List.all_eq_true.mp hb.1) h1 h2
+  | map k w ihk ihw =>
+    intro hk (a : List (Val k × Val w)) (b : List (Val k × Val w)) ha hb h1 h2
+    simp only [keyable, Bool.and_eq_true] at hk
+    simp only [wf, Bool.and_eq_true] at ha hb
+    refine ltLex_tricho _ (fun x => wf k x.1 = true ∧ wf w x.2 = true)
+      (fun x y hx hy e1 e2 => pairLt_tricho (lt k) (lt w) x y (ihk hk.1 x.1 y.1 hx.1 hy.1) (ihw hk.2 x.2 y.2 hx.2 hy.2) e1 e2)
+      a b ?_ ?_ h1 h2
+    · intro x hx; have := List.all_eq_true.mp ha.1 x hx; simpa using this
+    · intro x hx; have := List.all_eq_true.mp hb.1 x hx; simpa using this
+  | pair ta tb iha ihb =>
+    intro hk (a : Val ta × Val tb) (b : Val ta × Val tb) ha hb h1 h2
+    simp only [keyable, Bool.and_eq_true] at hk
+    simp only [wf, Bool.and_eq_true] at ha hb
+    simp only [lt] at h1 h2
+    exact pairLt_tricho (lt ta) (lt tb) a b (iha hk.1 a.1 b.1 ha.1 hb.1) (ihb hk.2 a.2 b.2 ha.2 hb.2) h1 h2
+  | ptr t ih => intro hk; simp [keyable] at hk
+  | mset t ih =>
+    intro hk (a : List (Val t)) (b : List (Val t)) ha hb h1 h2
+    simp only [keyable] at hk
+    simp only [wf, Bool.and_eq_true] at ha hb
+    exact ltLex_tricho (lt t) (fun x => wf t x = true) (fun x y hx hy => ih hk x y hx hy) a b
+      (List.all_eq_true.mp ha.1) (List.all_eq_true.mp hb.1) h1 h2
+  | mmap k w ihk ihw =>
+    intro hk (a : List (Val k × Val w)) (b : List (Val k × Val w)) ha hb h1 h2
+    simp only [keyable, Bool.and_eq_true] at hk
+    simp only [wf, Bool.and_eq_true] at ha hb
+    refine ltLex_tricho _ (fun x => wf k x.1 = true ∧ wf w x.2 = true)
+      (fun x y hx hy e1 e2 => pairLt_tricho (lt k) (lt w) x y (ihk hk.1 x.1 y.1 hx.1 hy.1) (ihw hk.2 x.2 y.2 hx.2 hy.2) e1 e2)
+      a b ?_ ?_ h1 h2
+    · intro x hx; have := List.all_eq_true.mp ha.1 x hx; simpa using this
+    · intro x hx; have := List.all_eq_true.mp hb.1 x hx; simpa using this
+  | arr t n ih =>
+    intro hk (a : List (Val t)) (b : List (Val t)) ha hb h1 h2
+    simp only [keyable] at hk
+    simp only [wf, Bool.and_eq_true] at ha hb
+    exact ltLex_tricho (lt t) (fun x => wf t x = true) (fun x y hx hy => ih hk x y hx hy) a b
+      (List.all_eq_true.mp ha.2) (List.all_eq_true.mp hb.2) h1 h2
+  | json => intro hk; simp [keyable] at hk
 
 /-! ## every successful load yields a well-formed value -/
 
